@@ -30,11 +30,13 @@ pub struct Frame {
     pub sid: u32,
     pub rbit: bool,
     pub payload: Vec<u8>,
+    /// announced length when the frame is larger than the reader's limit (payload not collected)
+    pub oversize: usize,
 }
 
 impl Frame {
     pub fn new(ty: u8, flags: u8, sid: u32, payload: Vec<u8>) -> Frame {
-        Frame { ty, flags, sid, rbit: false, payload }
+        Frame { ty, flags, sid, rbit: false, payload, oversize: 0 }
     }
     pub fn ser(&self) -> Vec<u8> {
         let mut v = Vec::with_capacity(9 + self.payload.len());
@@ -173,11 +175,14 @@ pub struct Splitter {
     buf: Vec<u8>,
     skip_preface: usize,
     pub bad_preface: bool,
+    /// frames announcing a longer payload are reported at once (header only) and their payload skipped
+    pub max_len: usize,
+    skip: usize,
 }
 
 impl Splitter {
     pub fn new(expect_preface: bool) -> Splitter {
-        Splitter { buf: vec![], skip_preface: if expect_preface { PREFACE.len() } else { 0 }, bad_preface: false }
+        Splitter { buf: vec![], skip_preface: if expect_preface { PREFACE.len() } else { 0 }, bad_preface: false, max_len: usize::MAX, skip: 0 }
     }
     pub fn push(&mut self, bytes: &[u8]) -> Vec<Frame> {
         self.buf.extend_from_slice(bytes);
@@ -193,6 +198,24 @@ impl Splitter {
                 self.buf.drain(..self.skip_preface);
                 self.skip_preface = 0;
             }
+            if self.skip > 0 {
+                let k = self.skip.min(self.buf.len());
+                self.buf.drain(..k);
+                self.skip -= k;
+                if self.skip > 0 {
+                    break;
+                }
+            }
+            if self.buf.len() >= 3 {
+                // a reader may give up as soon as it has seen the length field: report an oversize frame right there
+                let l = ((self.buf[0] as usize) << 16) | ((self.buf[1] as usize) << 8) | self.buf[2] as usize;
+                if l > self.max_len {
+                    out.push(Frame { ty: 0xff, flags: 0, sid: 0, rbit: false, payload: vec![], oversize: l });
+                    self.buf.drain(..3);
+                    self.skip = l + 6;
+                    continue;
+                }
+            }
             if self.buf.len() < 9 {
                 break;
             }
@@ -207,6 +230,7 @@ impl Splitter {
                 sid: sidraw & 0x7fff_ffff,
                 rbit: sidraw & 0x8000_0000 != 0,
                 payload: self.buf[9..9 + l].to_vec(),
+                oversize: 0,
             };
             self.buf.drain(..9 + l);
             out.push(f);
@@ -740,6 +764,11 @@ impl WireDecoder {
         let p = &f.payload;
         let o = j.as_object_mut().unwrap();
         let mut bad = String::new();
+        if f.oversize > 0 {
+            o.insert("len".into(), json!(f.oversize));
+            o.insert("bad".into(), json!("oversize"));
+            return j;
+        }
         match f.ty {
             DATA => {
                 o.insert("es".into(), json!(f.flags & F_END_STREAM != 0));
